@@ -118,6 +118,23 @@ def hex_roundtrip_cases(rng, tier):
     return cases
 
 
+def affixed(good):
+    """`good` = a well-formed prefixed string (bytes): the same with a second prefix, white space, NUL, a digit or a sign in
+    front of or behind it, with and without its own prefix"""
+    out = []
+    body = good[2:]
+    for pre in (b"T1", b"t1", b" ", b"\t", b"\n", b"\x00", b"0", b"+", b"0x", b"T1T1", b"\xef\xbb\xbf"):
+        out.append(pre + good)
+        out.append(pre + body)
+    for post in (b"T1", b" ", b"\n", b"\r\n", b"\x00", b"0", b"00", b";"):
+        out.append(good + post)
+        out.append(body + post)
+    out.append(b" " + good + b" ")
+    out.append(b"T1" + good[:-2])       # doubled prefix at the right total length
+    out.append(b"T1" + body[:-2])
+    return out
+
+
 def hex_malformed_cases(rng, tier):
     cases = []
     for v in VNAMES:
@@ -156,6 +173,12 @@ def hex_malformed_cases(rng, tier):
         for pfx in (b"T1", b"t1", b"T2", b"T0", b"1T", b"TT", b"11", b"\x00\x00", b"T\xff", b"\xd41", b" 1", b"T "):
             for mode in ("auto", "with", "empty"):
                 cases.append("parse %s %s %s" % (v, mode, hx(pfx + good[2:])))
+        # a well-formed string with something stuck in front of / behind it (a parser that strips or trims first would accept these)
+        for d in affixed(good):
+            for mode in ("auto", "with", "empty"):
+                cases.append("parse %s %s %s" % (v, mode, hx(d)))
+            if all(c < 128 for c in d):
+                cases.append("fromstr %s %s" % (v, hx(d)))
         # two adjacent damaged characters (aligned and unaligned pairs) at every position
         for pos in range(ls - 1):
             for a, b in ((0x40, 0x40), (0x7A, 0x7A), (0xFF, 0x80), (0x67, 0x47), (0x2F, 0x3A), (0x00, 0x00),
